@@ -1,21 +1,21 @@
 SPECIFICATION Spec
 CONSTANTS
   Thr = {t1, t2}
-  NObj = 1
+  NObj = 3
   NCell = 1
   NWCell = 1
   Fld = {1}
   MaxTag = 0
   M = 16
   InitEp = {0}
-  MaxEp = 6
+  MaxEp = 8
   MaxOps = 3
   MaxDepth = 3
   ExpAge = 3
   CasAge = 3
-  OpsEnabled = {"drop","upgrade","clone","collect"}
-  Scen = "weak"
+  OpsEnabled = {"drop","collect"}
+  Scen = "dag"
   Fix = {"pin", "inc", "mark", "stamp", "wmany", "newmany0"}
   Mut = {}
-INVARIANTS TypeOK C01 C01Link C02 C03 Once NoUnderflow EpochBound DepthBound FlagFirst WF
+INVARIANTS TypeOK C01 C01Link C02 C03 Once NoUnderflow EpochBound DepthBound FlagFirst Leak WF
 CHECK_DEADLOCK FALSE
